@@ -67,10 +67,18 @@ def regexpp(regex: Any) -> str:
     if result.endswith("\\") and (len(result) - len(result.rstrip("\\"))) % 2 != 0:
         result += "\\"
 
+    def escape(quote: str) -> str:
+        # NOTE: a quote after an even number of backslashes is not escaped yet
+        return re.sub(
+            rf'(\\*){quote}',
+            lambda m: m[1] + ('\\' if len(m[1]) % 2 == 0 else '') + quote,
+            result,
+        )
+
     if result.endswith("'") or result.count("'") > result.count('"'):
-        output = f'r"{re.sub(r'(?<!\\)"', r"\"", result)}"'
+        output = f'r"{escape('"')}"'
     else:
-        output = f"r'{re.sub(r"(?<!\\)'", r"\'", result)}'"
+        output = f"r'{escape("'")}'"
 
     try:
         evaluated = eval(output)  # noqa: S307
